@@ -125,6 +125,10 @@ func variants() []variant {
 		{name: "iter-highprec", res: ckks.ParametersLiteral{LogN: 10, LogQ: []int{60, 40, 40, 40}, LogP: []int{61, 61}, LogDefaultScale: 80, Xs: ring.Ternary{H: 192}},
 			btp: bootstrapping.ParametersLiteral{LogN: ip(10), LogMessageRatio: mr(10), IterationsParameters: &bootstrapping.IterationsParameters{BootstrappingPrecision: []float64{25, 25}, ReservedPrimeBitSize: 28}},
 			inLevels: []int{1}, batches: []int{1}, announce: 45},
+		// high precision through the ring-degree switch: the input lives on the primes above Q[0] as well
+		{name: "iter-highprec-ringswitch", res: ckks.ParametersLiteral{LogN: 9, LogNthRoot: 11, LogQ: []int{60, 40, 40, 40}, LogP: []int{61, 61}, LogDefaultScale: 80, Xs: ring.Ternary{H: 192}},
+			btp: bootstrapping.ParametersLiteral{LogN: ip(10), LogMessageRatio: mr(9), IterationsParameters: &bootstrapping.IterationsParameters{BootstrappingPrecision: []float64{25, 25}, ReservedPrimeBitSize: 28}},
+			inLevels: []int{1}, batches: []int{1}, announce: 45, quick: true},
 		{name: "cos-continuous", res: base, btp: bootstrapping.ParametersLiteral{LogN: ip(10), LogMessageRatio: mr(10), Mod1Type: mod1.CosContinuous, DoubleAngle: ip(3), Mod1Degree: ip(63)}, inLevels: []int{0}, batches: []int{1}, stages: true},
 		{name: "sin-arcsine", res: base, btp: bootstrapping.ParametersLiteral{LogN: ip(10), LogMessageRatio: mr(10), Mod1Type: mod1.SinContinuous, DoubleAngle: ip(0), Mod1Degree: ip(127), Mod1InvDegree: ip(7), K: ip(14)}, inLevels: []int{0}, batches: []int{1}, stages: true},
 		{name: "dft-split", res: base, btp: bootstrapping.ParametersLiteral{LogN: ip(10), LogMessageRatio: mr(10),
